@@ -1,17 +1,20 @@
 (* C08 — revocation is effective, complete and restricted to the owning client.  Statements only.
    "Accepted" is judged at the API verdict of the revocation endpoint (see DESIGN.md 6.0). *)
-From FositeModel Require Import Base.Str Model.Scope Model.Core Model.Flows Proofs.C08Proofs.
+From FositeModel Require Import Base.Str Model.Scope Model.Core Model.Flows Proofs.Family Proofs.C08Proofs.
 
 (* accepted request of the owning client for a token with a live record: that token and the access/refresh
-   token of the same grant are inactive for all later use (any history, hint, scope list, presentation) *)
+   token of the same grant are inactive for all later use (any history, hint, scope list, presentation).
+   [endpoint_token] / [i_kind e <> KImplicit]: for tokens minted by the token endpoint.  For the access token a hybrid
+   authorization hands out at the authorization endpoint the clause is refuted below (finding A10). *)
 Theorem C08_revocation_effective_and_complete :
   forall cfg cls h1 c cl tok hint0 r h2 i e tampered hint scopes,
   let s1 := run cfg (state0 cls) h1 in
   clients s1 c = Some cl -> revoke_lookup s1 (key_of s1 tok) hint0 = Some r -> r_client r = c ->
+  endpoint_token s1 tok ->
   let res := revoke cfg s1 (Some c) tok hint0 in
   o_err (snd res) = "" /\
   (let s2 := run cfg (fst res) h2 in
-   nth_error (log s2) i = Some e -> i_rid e = r_id r ->
+   nth_error (log s2) i = Some e -> i_rid e = r_id r -> i_kind e <> KImplicit ->
    introspect cfg s2 {| p_ref := CRef i; p_tampered := tampered |} hint scopes = None).
 Proof. exact revoke_effective. Qed.
 Print Assumptions C08_revocation_effective_and_complete.
